@@ -341,3 +341,22 @@ bb2:
   ret i8* %p
   uselistorder i8* blockaddress(@f, %bb), { 1, 0 }
 }
+;;; ATOM func/attrgroup-one-key-several-values
+define void @f() #0 {
+  ret void
+}
+define void @g() "frame-pointer"="all" "frame-pointer"="none" "k" "k"="v" {
+  ret void
+}
+attributes #0 = { "frame-pointer"="all" nounwind "frame-pointer"="none" "k" "k"="v" "z"="1" "z" }
+;;; ATOM func/attrgroup-alignments
+define void @f() #0 {
+  ret void
+}
+define void @g() #1 {
+  ret void
+}
+declare void @h() #2
+attributes #0 = { nounwind align=16 alignstack=8 }
+attributes #1 = { alignstack=4 }
+attributes #2 = { align=1 "a" }
